@@ -166,6 +166,11 @@ func (f *fakeDlqDest) Write(ctx context.Context, recs []opencdc.Record) error {
 	f.mu.Unlock()
 	f.x.log.Add(evs...)
 	if err := f.x.sched.Park(ctx, fmt.Sprintf("QW%d", f.s), false, nil); err != nil {
+		// the write did not happen: every record of it is reported as not confirmed
+		for i := range evs {
+			evs[i].T, evs[i].Ok = "QC", false
+		}
+		f.x.log.Add(evs...)
 		return err
 	}
 	f.mu.Lock()
@@ -176,6 +181,15 @@ func (f *fakeDlqDest) Write(ctx context.Context, recs []opencdc.Record) error {
 
 func (f *fakeDlqDest) Ack(ctx context.Context) ([]connector.DestinationAck, error) {
 	if err := f.x.sched.Park(ctx, fmt.Sprintf("QA%d", f.s), false, nil); err != nil {
+		// no reply will come for what is outstanding
+		f.mu.Lock()
+		evs := make([]Ev, len(f.pending))
+		for i, p := range f.pending {
+			evs[i] = Ev{T: "QC", S: p.s, K: p.k, Ok: false}
+		}
+		f.pending = nil
+		f.mu.Unlock()
+		f.x.log.Add(evs...)
 		return nil, err
 	}
 	f.mu.Lock()
@@ -434,7 +448,7 @@ func RunV2(c Case, deadline time.Duration) Obs {
 			}
 		}
 	}
-	o.Hang = x.drive(done, fire, deadline)
+	o.Hang, _ = x.drive(done, fire, nil, deadline)
 	if o.Hang {
 		cancel()
 		x.sched.FreeRun()
@@ -453,6 +467,7 @@ func RunV2(c Case, deadline time.Duration) Obs {
 	}
 	ccancel()
 	o.Log = x.log.Snapshot()
+	o.RunID = x.log.id
 	o.Results = results
 	o.Released = x.sched.Released()
 	return o
